@@ -53,6 +53,14 @@ def diagram_case(args):
         if rnd.random() < 0.3:
             for op in recipe["ops"]:
                 if "comp" in op and op["comp"]["kind"] == "PLoad": op["comp"]["args"]["pwr"] = rnd.choice([0.5, 2.0])
+    if rnd.random() < 0.15:
+        # a group name made of blanks only is still a non-empty group
+        gs = sorted({op.get("group", "") for op in recipe["ops"]} - {""})
+        if gs:
+            g0 = rnd.choice(gs)
+            for op in recipe["ops"]:
+                if op.get("group") == g0: op["group"] = rnd.choice([" ", "  "])
+            if idx % 3 == 1: shadow = Model.of(recipe)
     out = {"hash": _hash(recipe), "failures": [], "nontrivial": True, "sample": None, "outcome": None}
     def F(key, text): out["failures"].append({"key": key, "text": text, "props": ["C19"], "recipe": recipe})
     try:
@@ -103,7 +111,15 @@ def diagram_case(args):
         oc, df = _solve_outcome(s)
         out["outcome"] = oc
         if oc == "table":
-            jh = load(D.make_hdiag)
+            if rnd.random() < 0.4:
+                # a configuration that sets Graphviz labels / colours itself: the heat diagram still shows every loss
+                hconf = D.get_conf(); where = rnd.choice(["default", k1, n1])
+                hconf["node"].setdefault(where, {}); hconf["node"][where] = dict(hconf["node"][where], label="custom text", fillcolor="white")
+                hconf0 = copy.deepcopy(hconf)
+                jh = load(D.make_hdiag, config=hconf)
+                if hconf != hconf0: F("diag.config", "make_hdiag changed the caller's configuration")
+            else:
+                jh = load(D.make_hdiag)
             nodes, clusters, edges, objs = parse(jh)
             byn = {n["name"]: n for n in nodes.values()}
             if sorted(k for k in byn if k != "Scale") != sorted(want_nodes) or "Scale" not in byn: F("hdiag.nodes", "make_hdiag nodes %s != components + Scale" % sorted(byn))
